@@ -121,3 +121,66 @@ package qbft
 //@ ensures r1 == nil ==> ncalls(signMsg) == 1 && ncalls(newMsg) == 1
 //@ loop 1 invariant len(justMsgs) == $i && forall(k, 0, $i, justMsgs[k] == justification[k].(Msg).Msg()) && ncalls(signMsg) == 1 && ncalls(newMsg) == 0
 //@ canary r1 != nil
+
+// ---- the qbft.Definition handed to core/qbft.Run: leader rule, node count, decide dispatch ----------------------
+//@ pure Msg.Values subs
+
+//@ func newDefinition
+//@ props C02 C03 C04
+//@ requires 1 <= nodes && nodes <= 4096
+//@ ensures result.Nodes == nodes && result.FIFOLimit == instance.RecvBufferSize
+
+//@ func newDefinition$1
+//@ props C02 C03 C04
+//@ requires duty.Slot < 1<<62 && 0 <= duty.Type && duty.Type < 64 && 1 <= round && round < 1<<61 && 1 <= nodes && nodes <= 4096
+//@ ensures result == ((int64(duty.Slot) + int64(duty.Type) + round) % int64(nodes) == process)
+
+// Decide: subscribers receive the value that the decided hash names in the quorum COMMIT's value table, for the
+// decided duty, after the instance was told about the decision; nothing is delivered when the hash is unknown.
+//@ func newDefinition$2
+//@ props C03 C14
+//@ callreq decideCallback: a1 == round && res(1, qcommit[0].(Msg)) && has(qcommit[0].(Msg).Values(), valueHash)
+//@ callreq sub: a2 == duty && a3 == res(0, qcommit[0].(Msg).Values()[valueHash].UnmarshalNew()) && ncalls(decideCallback) == 1
+//@ ensures ncalls(decideCallback) <= 1
+//@ loop 1 invariant ncalls(decideCallback) == 1
+
+// propose: the instance of THIS duty is marked proposed first, then receives the proposed value together with the hash
+// of that very value, and the consensus run that is started is the one of this duty.
+//@ func (c *Consensus) propose
+//@ props C02 C03
+//@ requires len(c.peers) <= 4096
+//@ callreq c.getInstanceIO: a1 == duty
+//@ callreq send inst.ValueCh: ncalls(inst.MarkProposed) == 1 && a1.Value == value && res(1, hashProto(value)) == nil && a1.Hash == res(0, hashProto(value))
+//@ callreq send inst.HashCh: a1 == res(0, hashProto(value)) && ncalls("send inst.ValueCh") == 1
+//@ callreq send inst.VerifyCh: a1 == value
+//@ callreq c.runInstance: a2 == duty && ncalls("send inst.HashCh") == 1
+//@ ensures ncalls(c.runInstance) <= 1
+
+//@ func (c *Consensus) Participate
+//@ props C02 C03
+//@ requires len(c.peers) <= 4096
+//@ callreq c.getInstanceIO: a1 == duty
+//@ callreq c.runInstance: a2 == duty && ncalls(inst.MarkParticipated) == 1
+//@ ensures ncalls(c.runInstance) <= 1
+
+// runInstance: one qbft.Run per call, for this duty, with this node's peer index as process id, the definition built for
+// the cluster's node count, the instance's own input channels, and a transport bound to the node's key; expired or
+// exempt duties never start a run.
+//@ func (c *Consensus) runInstance
+//@ props C02 C03 C04
+//@ requires len(c.peers) <= 4096
+//@ callreq c.getInstanceIO: a1 == duty
+//@ callreq c.deadliner.Add: a1 == duty
+//@ callreq newDefinition: a1 == len(c.peers) && a5 == c.compareAttestations
+//@ callreq newTransport: a2 == c.privkey && a3 == inst.ValueCh
+//@ callreq c.getRecvBuffer: a1 == duty
+//@ callreq qbft.Run: a2 == def && a4 == duty && a5 == peerIdx && a6 == inst.HashCh && a7 == inst.VerifyCh && ncalls(c.deadliner.Add) == 1
+//@ ensures ncalls(qbft.Run) <= 1
+
+// The process id handed to qbft.Run is this node's position in the peer list (so the list is not empty).
+//@ pure host.Host.ID
+//@ func (c *Consensus) getPeerIdx
+//@ props C02 C03 C04
+//@ ensures r1 == nil ==> 0 <= r0 && r0 < int64(len(c.peers)) && c.peers[r0].ID == c.p2pNode.ID()
+//@ loop 1 invariant peerIdx == -1 || (0 <= peerIdx && peerIdx < int64($i) && c.peers[peerIdx].ID == c.p2pNode.ID())
+
